@@ -27,7 +27,7 @@ PROFILE = {# raw doc actions of an OLD undo list replayed against a document tha
            "detach_summary": 1, "display_formula": 4, "add_rule": 4, "add_ref_column": 4, "reverse_column": 2,
            "rename_column": 3, "rename_table": 2, "duplicate_table": 1.5, "add_table": 4, "add_column": 5,
            "add_formula_column": 4, "modify_type": 3, "undo_earlier": 3, "malformed": 2, "add_record": 6,
-           "update_record": 6, "remove_record": 4, "ref_into_summary": 4, "remove_summary_widget": 4, "hide_field": 4, "summary_chain": 3}
+           "update_record": 6, "remove_record": 4, "ref_into_summary": 4, "remove_summary_widget": 4, "hide_field": 4, "summary_chain": 3, "show_group_field": 5}
 CFG = {"oracles": ("replica",), "n_bundles": 14, "profile": PROFILE, "hook": "gx.props.c09.install"}
 TIE_KINDS = ("meta-refs", "doc-P", "driver")
 
@@ -79,6 +79,10 @@ def twin(doc, specs):
   sec_table = dict(zip(srows, scols["tableRef"]))
   col_parent = dict(zip(crows, ccols["parentId"]))
   for f, s, c in zip(frows, fcols["parentId"], fcols["colRef"]):
+    if s and s in sec_table and not c:
+      # a field of an existing section that shows NO column (its column went away and the field stayed behind)
+      res["fields"] = (False, "field %s of section %s has colRef=%r: it points at no column" % (f, s, c))
+      break
     if s and c and s in sec_table and c in col_parent and col_parent[c] != sec_table[s]:
       res["fields"] = (False, "field %s: column %s belongs to table %s, section %s shows table %s" % (
         f, c, col_parent[c], s, sec_table[s]))
